@@ -298,7 +298,7 @@ fn viol(invariant: &str, signature: String, detail: String) -> Violation {
 
 /// Check the layered extractors on a body that was accepted.
 fn check_typed(script: &Script, head: &RequestHead, got: &[u8], expect: &[u8], out: &mut RunOut) {
-    let bb = buffered(got);
+    let Some(bb) = buffered(got) else { return };
     match script.payload {
         Payload::Json => {
             let r: Result<JsonBody<serde_json::Value>, _> = JsonBody::extract(head, &bb);
@@ -344,13 +344,13 @@ fn form_pairs(b: &[u8]) -> Vec<(String, String)> {
     }
 }
 
-fn buffered(b: &[u8]) -> BufferedBody {
+fn buffered(b: &[u8]) -> Option<BufferedBody> {
     // BufferedBody is #[non_exhaustive] only for foreign *construction*; go through serde-free path:
     // it has a public field and implements Clone, so build one through the seam-free route below.
     make_buffered(Bytes::copy_from_slice(b))
 }
 
-fn make_buffered(bytes: Bytes) -> BufferedBody {
+fn make_buffered(bytes: Bytes) -> Option<BufferedBody> {
     // The only way to obtain a BufferedBody outside the crate is via extraction: run the real
     // extractor with no limit pressure on a one-frame body.
     let head = RequestHead {
@@ -359,15 +359,21 @@ fn make_buffered(bytes: Bytes) -> BufferedBody {
         version: http::Version::HTTP_11,
         headers: http::HeaderMap::new(),
     };
+    let limit = bytes.len() as u64 + 1;
     let body = http_body_util::Full::new(bytes);
-    let fut = BufferedBody::verif_extract_with_limit(&head, body, ByteUnit::Byte(u64::MAX));
-    let mut fut = std::pin::pin!(fut);
-    let w = std::task::Waker::noop();
-    let mut cx = Context::from_waker(w);
-    match fut.as_mut().poll(&mut cx) {
-        Poll::Ready(Ok(b)) => b,
-        _ => simcore::driver::harness_error("cannot build a BufferedBody"),
-    }
+    crate::quiet_panics();
+    std::panic::catch_unwind(std::panic::AssertUnwindSafe(|| {
+        let fut = BufferedBody::verif_extract_with_limit(&head, body, ByteUnit::Byte(limit));
+        let mut fut = std::pin::pin!(fut);
+        let w = std::task::Waker::noop();
+        let mut cx = Context::from_waker(w);
+        match fut.as_mut().poll(&mut cx) {
+            Poll::Ready(Ok(b)) => Some(b),
+            _ => None,
+        }
+    }))
+    .ok()
+    .flatten()
 }
 
 fn run_frames(script: &Script, tape: &mut Tape, keep: bool) -> RunOut {
@@ -394,6 +400,7 @@ fn run_frames(script: &Script, tape: &mut Tape, keep: bool) -> RunOut {
     let waker = std::task::Waker::from(flag.clone());
     let mut cx = Context::from_waker(&waker);
     let mut polls = 0u64;
+    let mut panicked: Option<String> = None;
     let result = loop {
         polls += 1;
         if polls > 10 * script.frames.len() as u64 + 100 {
@@ -404,14 +411,22 @@ fn run_frames(script: &Script, tape: &mut Tape, keep: bool) -> RunOut {
             // not woken and no spurious poll: the transport has stalled for good
             break None;
         }
-        match fut.as_mut().poll(&mut cx) {
-            Poll::Ready(r) => break Some(r),
-            Poll::Pending => {
+        crate::quiet_panics();
+        match std::panic::catch_unwind(std::panic::AssertUnwindSafe(|| fut.as_mut().poll(&mut cx))) {
+            Ok(Poll::Ready(r)) => break Some(r),
+            Ok(Poll::Pending) => {
                 out.log.sched(format_args!("pending"));
+            }
+            Err(_) => {
+                panicked = Some(crate::take_panics().join(" | "));
+                break None;
             }
         }
     };
     drop(fut);
+    if let Some(msg) = &panicked {
+        out.violations.push(viol("no-panic", "extractor panicked (frames)".into(), format!("the extractor panicked instead of returning a body or an error: {}", msg.chars().take(200).collect::<String>())));
+    }
     let st = stats.borrow();
     let n = limit_usize(script.limit);
     let header_len: Option<usize> = cl_header(script, data.len()).and_then(|v| v.parse::<usize>().ok());
@@ -676,7 +691,9 @@ fn run_wire(script: &Script, tape: &mut Tape, keep: bool) -> RunOut {
     let cap = script.pipe_capacity.max(1);
     let total = msg.len();
     let msg_len = msg.len();
-    rt.block_on(async move {
+    crate::quiet_panics();
+    let _ = crate::take_panics();
+    let run_res = std::panic::catch_unwind(std::panic::AssertUnwindSafe(|| rt.block_on(async move {
         sched::start_clock();
         let (mut cl, sv, _pipes) = net::connection(0, cap, 65_536, false);
         let server = sched::spawn("server", true, move || {
@@ -767,7 +784,8 @@ fn run_wire(script: &Script, tape: &mut Tape, keep: bool) -> RunOut {
             })
         });
         sched::root(main).await;
-    });
+    })));
+    let wire_panics: Vec<String> = crate::take_panics();
     let sim_ns;
     let inner = {
         let _g = rt.enter();
@@ -784,6 +802,9 @@ fn run_wire(script: &Script, tape: &mut Tape, keep: bool) -> RunOut {
         simcore::driver::harness_error("bodysim(wire): step cap exceeded");
     }
     let rec = WIRE.with(|w| std::mem::take(&mut *w.borrow_mut()));
+    if run_res.is_err() || !wire_panics.is_empty() {
+        out.violations.push(viol("no-panic", "extractor panicked (wire)".into(), format!("a panic occurred while serving the request: {}", wire_panics.join(" | ").chars().take(200).collect::<String>())));
+    }
     let n = limit_usize(script.limit);
     // Content-Length as the extractor sees and parses it
     let header_len: Option<usize> = rec.seen_cl.as_ref().and_then(|v| v.parse::<usize>().ok());
